@@ -199,6 +199,13 @@ def check(ax, case, rec):
     # ---- mixed containers: default spaces (first field gradient, others value)
     n = len(fields)
     grads = [True] + [False] * (n - 1)
+    gkw = {}
+    if c in ("M2", "M3") and f != "L" and case["seed"] % 3 == 0:
+        # value spaces in every block (explicit grad_v / grad_u lists), e.g. a coupling of a scalar field with the displacement
+        # VALUES: the scalar / vector blocks carry (1, dim, q, c) integrands
+        grads = [False] * n
+        gkw = dict(grad_v=list(grads), grad_u=list(grads))
+        rec.label("value-spaces-in-all-blocks")
     offs = np.cumsum([0] + [ra.ndof(x) for x in fields])
     if f == "L":
         funs = []
@@ -228,7 +235,7 @@ def check(ax, case, rec):
         K[offs[i] : offs[i + 1], offs[j] : offs[j + 1]] += blk
         if f == "B2" and i != j:
             K[offs[j] : offs[j + 1], offs[i] : offs[i + 1]] += blk.T
-    got = dense(fem.IntegralForm(funs, fc, dV, fc).assemble(parallel=par))
+    got = dense(fem.IntegralForm(funs, fc, dV, fc, **gkw).assemble(parallel=par))
     cmp("mixed-bilinear-mode" + ("2" if f == "B2" else "3"), got, K)
     rec.label("mode=" + f)
     if any(fn is None for fn in funs) and c not in ("M3AX",):
@@ -241,8 +248,8 @@ def check(ax, case, rec):
             shapes.append(tv + tu)
         funs_full = [fn if fn is not None else integrand(rng, shp, nq, nc, "full") for fn, shp in zip(funs, shapes)]
         try:
-            buffers = fem.IntegralForm(funs_full, fc, dV, fc).integrate(parallel=par)
-            form2 = fem.IntegralForm(funs, fc, dV, fc)
+            buffers = fem.IntegralForm(funs_full, fc, dV, fc, **gkw).integrate(parallel=par)
+            form2 = fem.IntegralForm(funs, fc, dV, fc, **gkw)
             buffers = form2.integrate(parallel=par, out=buffers)
             got2 = dense(form2.assemble(values=buffers))
             cmp("absent-blocks-stay-zero-when-buffers-are-re-used", got2, K)
